@@ -30,6 +30,7 @@ inductive Err where
   | value      -- ValueError
   | overflow   -- OverflowError
   | type       -- TypeError
+  | zerodiv    -- ZeroDivisionError / decimal.DivisionByZero (XPath: the `div` operator's own zero test)
   deriving DecidableEq, Repr, Inhabited
 
 /-- `(_year, _dt.month, _dt.day, time of day of _dt in µs, utcoffset of _dt.tzinfo in minutes)` -/
@@ -366,6 +367,67 @@ def adjustDate (a : DT) (tz : Option Int) : Except Err DT :=
     pure { v with tz := some z }
   | _, _ => .ok { a with tz := tz }
 
+/-! ### the implicit timezone of the dynamic context (XPath operators) -/
+
+/-- `XPathToken.implicit_timezone_operands` (xpath_tokens/base.py, after fix-c11-2): an operand without
+timezone gets `context.timezone` (on a copy) when one is set -/
+def fillTz (itz : Option Int) (v : DT) : DT :=
+  match v.tz, itz with
+  | none, some z => { v with tz := some z }
+  | _, _ => v
+
+/-- the XPath value/general comparison operators on two date/time values under a dynamic context with
+implicit timezone `itz`: `_compare` on the filled operands -/
+def compareCtx (itz : Option Int) (op : Cmp) (a b : DT) : Bool := compare op (fillTz itz a) (fillTz itz b)
+
+/-! ### xs:time (datetime.py class `Time`): the proxy date is 2000-01-01 -/
+
+/-- `Time.__init__` (datetime.py:897-913): `24:00:00` is `00:00:00`; then `AbstractDateTime.__init__`
+with the default year 2000, month 1, day 1 -/
+def timeMk (h mi s us : Int) (tz : Option Int) : Except Err DT :=
+  let h' := if h == 24 && mi == 0 && s == 0 && us == 0 then 0 else h
+  mk 2000 1 1 h' mi s us tz
+
+/-- `dt = self._dt + timedelta; return Time(dt.hour, dt.minute, dt.second, dt.microsecond, dt.tzinfo)`
+(`Time.__add__`/`__sub__`, datetime.py:928-952): the date of the sum is dropped — the time wraps modulo
+24 h — but the sum itself must stay inside CPython's years 1..9999 (`OverflowError`) -/
+def timeAddUs (t : DT) (d : Int) : Except Err DT :=
+  match pyOfOrdUs (pyOrdUs 2000 1 1 t.us + d) with
+  | .ok (_, _, _, us) => mkUs 2000 1 1 us t.tz
+  | .error e => .error e
+
+/-- `time ± DayTimeDuration` -/
+def timeAddDur (t : DT) (dur : Int) (neg : Bool) : Except Err DT := do
+  let d ← tdNorm dur                      -- other.get_timedelta()
+  timeAddUs t (if neg then -d else d)
+
+/-- `time − time` (`Time.__sub__`): `DayTimeDuration.fromtimedelta(dt1 - dt2)` of the two proxy datetimes -/
+def timeDiff (a b : DT) : Int := proxyKey a - proxyKey b
+
+/-- `adjust_datetime` for `xs:time`: `_item += timezone.offset - _tzinfo.offset`, then the timezone is set -/
+def timeAdjust (t : DT) (tz : Option Int) : Except Err DT :=
+  match t.tz, tz with
+  | some z0, some z => do
+    let v ← timeAddUs t ((z - z0) * UM)
+    pure { v with tz := some z }
+  | _, _ => .ok { t with tz := tz }
+
+/-! ### gYear, gYearMonth, gMonth, gMonthDay, gDay: `AbstractDateTime.__init__` with default fields -/
+
+inductive GKind where | gYear | gYearMonth | gMonth | gMonthDay | gDay
+  deriving DecidableEq, Repr
+
+/-- `GregorianYear(year, tz)`, `GregorianYearMonth(year, month, tz)`, `GregorianMonth(month, tz)`,
+`GregorianMonthDay(month, day, tz)`, `GregorianDay(day, tz)` (datetime.py:700-880): the missing fields
+are the defaults of `AbstractDateTime.__init__` (year 2000, month 1, day 1), time 00:00:00 -/
+def gMk (k : GKind) (year month day : Int) (tz : Option Int) : Except Err DT :=
+  match k with
+  | .gYear => mk year 1 1 0 0 0 0 tz
+  | .gYearMonth => mk year month 1 0 0 0 0 tz
+  | .gMonth => mk 2000 month 1 0 0 0 0 tz
+  | .gMonthDay => mk 2000 month day 0 0 0 0 tz
+  | .gDay => mk 2000 1 day 0 0 0 0 tz
+
 /-! ### object identity: `adjust_datetime` works on a copy of its argument -/
 
 /-- `adjust_datetime` on a Python heap of date/time objects (`h[i]` is the argument object).
@@ -409,7 +471,63 @@ seconds with fraction in µs -/
 def components (v11 : Bool) (v : DT) : List Int :=
   [yearFrom v11 v.year, v.month, v.day, v.us / 3600000000, v.us / 60000000 % 60, v.us % 60000000]
 
-/-! ### durations -/
+/-! ### durations: a duration is (months, µs) -/
+
+structure Dur where
+  months : Int
+  us : Int
+  deriving DecidableEq, Repr, Inhabited
+
+/-- `Duration.__init__` (datetime.py:1029-1043): sign agreement, |months| ≤ 2^31, |seconds| ≤ 2^63; the
+seconds are already on the µs grid here (`quantize` is part of the operators below) -/
+def durMk (months us : Int) : Except Err Dur :=
+  if (us < 0 ∧ 0 < months) ∨ (months < 0 ∧ 0 < us) then .error .value
+  else if months.natAbs > 2 ^ 31 then .error .overflow
+  else if us.natAbs > 2 ^ 63 * 1000000 then .error .overflow
+  else .ok ⟨months, us⟩
+
+/-- `round_number(x)` for the rational `x = num / den`, `den > 0` (helpers.py:248-256): `ROUND_HALF_UP` for
+positive numbers, `ROUND_HALF_DOWN` otherwise — both are `⌊x + 1/2⌋`:
+positive: `(2·num + den) div (2·den)`; otherwise `−⌈(2·|num| − den) / (2·den)⌉` -/
+def roundNumber (num den : Int) : Int :=
+  if num > 0 then (2 * num + den) / (2 * den)
+  else -(-((-(2 * (-num) - den)) / (2 * den)))
+
+/-- `Decimal.quantize(Decimal('1.000000'))` under the default context (`ROUND_HALF_EVEN`) of the rational
+`num / den` µs, `den > 0` -/
+def roundHalfEven (num den : Int) : Int :=
+  let q := num / den
+  let r := num % den
+  if 2 * r < den then q else if 2 * r > den then q + 1 else if q % 2 = 0 then q else q + 1
+
+/-- `YearMonthDuration.__add__/__sub__` -/
+def ymAdd (a b : Int) (neg : Bool) : Except Err Dur := durMk (if neg then a - b else a + b) 0
+
+/-- `YearMonthDuration.__mul__`: `int(round_number(self.months * other))`, `other = n / d` exactly
+(an `int`, a `Decimal` or a `float`), `d > 0` -/
+def ymMul (m n d : Int) : Except Err Dur := durMk (roundNumber (m * n) d) 0
+
+/-- `YearMonthDuration.__truediv__` by the number `n / d` (`d > 0`); the XPath `div` operator tests the
+divisor for zero first -/
+def ymDiv (m n d : Int) : Except Err Dur :=
+  if n = 0 then .error .zerodiv
+  else if n > 0 then durMk (roundNumber (m * d) n) 0
+  else durMk (roundNumber (-(m * d)) (-n)) 0
+
+/-- `DayTimeDuration.__add__/__sub__` -/
+def dtAdd (a b : Int) (neg : Bool) : Except Err Dur := durMk 0 (if neg then a - b else a + b)
+
+/-- `DayTimeDuration.__mul__`: `self.seconds * other` then `quantize` to µs (half-even); exact as long as the
+product has at most 28 significant digits (the decimal context) -/
+def dtMul (s n d : Int) : Except Err Dur := durMk 0 (roundHalfEven (s * n) d)
+
+/-- `DayTimeDuration.__truediv__` by the number `n / d` -/
+def dtDiv (s n d : Int) : Except Err Dur :=
+  if n = 0 then .error .zerodiv
+  else if n > 0 then durMk 0 (roundHalfEven (s * d) n)
+  else durMk 0 (roundHalfEven (-(s * d)) (-n))
+
+/-! ### duration comparison -/
 
 /-- `Duration._compare_durations` (datetime.py:1107-1130): all four reference dates must agree -/
 def durationCmp (op : Cmp) (m1 s1 m2 s2 : Int) : Bool :=
